@@ -51,11 +51,12 @@ Definition sx_event (e : event) : sx :=
   | EvPong i => SL [SN 6; SN i]
   end.
 
-(* op: (0 kind hs he) | (1 lkind) | (2 id typ shape) | (3 id) *)
+(* op: (0 kind hs he rs re budget) | (1 lkind) | (2 id typ shape) | (3 id) *)
 Definition op_of (s : sx) : op :=
   let a n := sx_get_n (sx_nth s n) in
   match a 0%nat with
   | 0 => AppRequest (akind_of (a 1%nat)) (sx_get_bool (sx_nth s 2)) (sx_get_bool (sx_nth s 3))
+                    (mkretry (sx_get_bool (sx_nth s 4)) (sx_get_bool (sx_nth s 5)) (N.to_nat (a 6%nat)))
   | 1 => LibRequest (lkind_of (a 1%nat))
   | 2 => Deliver (a 1%nat) (ityp_of (a 2%nat)) (shape_of_n (a 3%nat))
   | _ => DeliverOther (a 1%nat)
@@ -90,4 +91,5 @@ Definition run_table (arg : sx) : sx :=
       SL (map (fun lk => let '(l, (s, e)) := lib_route gen_cfg lk in
                          SL [SN (layer_code l); sx_bool s; sx_bool e]) all_lkinds);
       sx_bool (strict_reply gen_cfg); sx_bool (strict_iface gen_cfg); sx_bool (cfg_ok gen_cfg);
-      SL (map (fun k => sx_bool (kind_ok gen_cfg k)) all_akinds)].
+      SL (map (fun k => sx_bool (kind_ok gen_cfg k)) all_akinds);
+      sx_bool (late_delete gen_cfg); sx_bool (late_delete_iface gen_cfg)].
